@@ -674,7 +674,7 @@ def main():
         src, lines = rust_bin(byid, b)
         files["src/bin/%s.rs" % b["name"]] = src
         linemap[b["name"]] = lines
-    cdir = os.path.join(ck.workdir, "replay-crate" if ck.replay else "crate")
+    cdir = os.path.join(ck.cachedir, "replay-crate" if ck.replay else "crate")
     cg.write_crate(cdir, "c16replay" if ck.replay else "c16corpus", DEPS, files)
     ok, log = cg.cargo_build(cdir, keep_going=True)
     results, ifres, failed_bins = {}, {}, []
